@@ -8,7 +8,7 @@ Definition sb_out (r : list Z * list nat) : list (list Z) := [fst r; zs (snd r)]
 Definition run_c18 (k : Z) (args : list (list Z)) : list (list Z) :=
   let ds := net_in (arg 0 args) in
   let sq := ns (arg 1 args) in
-  if k =? 1801 then sb_out (subbasins_streamorder ds sq (arg 2 args) (argz 3 args))
+  if k =? 1801 then sb_out (subbasins_streamorder ds sq (arg 2 args) (mask_opt (argz 4 args) (arg 5 args)) (argz 3 args))
   else if k =? 1802 then sb_out (subbasins_area ds sq (net_in (arg 2 args)) (arg 3 args) (argz 4 args))
   else if k =? 1803 then
     sb_out (subbasins_pfafstetter ds (ns (arg 2 args)) sq (net_in (arg 3 args)) (arg 4 args)
